@@ -502,6 +502,37 @@ func (e *Engine) loopsOf(f *ssa.Function) []*Loop {
 				l.Region[b] = true
 			}
 		}
+		// blocks without source positions (e.g. the "done" block of an inner range loop) belong to the region
+		// when every way into them comes from the region
+		for changed := true; changed; {
+			changed = false
+			for _, b := range f.Blocks {
+				if l.Region[b] || !l.Header.Dominates(b) || len(b.Preds) == 0 {
+					continue
+				}
+				positioned := false
+				for _, in := range b.Instrs {
+					if _, isDbg := in.(*ssa.DebugRef); !isDbg && in.Pos().IsValid() {
+						positioned = true
+					}
+				}
+				if positioned {
+					continue
+				}
+				all := true
+				for _, p := range b.Preds {
+					if !l.Region[p] {
+						all = false
+					}
+				}
+				// the block that follows the loop statement is reached from the header's exit edge; it is positioned
+				// (or has a predecessor outside the region), so it is not absorbed here unless the loop never exits normally
+				if all && b != l.Header {
+					l.Region[b] = true
+					changed = true
+				}
+			}
+		}
 	}
 	// parents
 	for _, l := range loops {
